@@ -10,10 +10,10 @@ subjects = {l.split(' ', 1)[0]: l.split(' ', 1)[1] for l in log}
 fixed = [f for f in d['findings'] if f['status'] == 'fixed']
 # drop entries whose commit no longer exists and cannot be matched
 by_commit = {f.get('commit'): f for f in fixed}
-PROPS = [('C16', 'RAM access'), ('C20', 'configuration'), ('C05', 'condition'), ('C17', 'ThumbExpandImm|TTBCR.ORGN0'),
-         ('C10', 'modulo 2\^32|wrap|wraps'), ('C09', 'MULS|SSAT'), ('C15', 'TTBR0|PD0'), ('C12', 'SPSRWriteByInstr|SUBS PC, LR \(Thumb\)|exception return executed'),
-         ('C03', 'LDM|STM|LDMDA|POP'), ('C02', 'LDR \(register\)|STREXD|stores of the PC|MemU'), ('C07', 'Thumb|T2|T3|T4|decode'),
-         ('C06', 'ARM ADD/SUB|STRT/STRBT|LDRSB \(register\) A1'), ('C18', 'UNPREDICTABLE encoding'), ('C13', 'instruction fetch')]
+PROPS = [('C16', r'RAM access'), ('C20', r'configuration'), ('C05', r'condition'), ('C17', r'ThumbExpandImm|TTBCR.ORGN0'),
+         ('C10', r'modulo 2\^32|wrap|wraps'), ('C09', r'MULS|SSAT'), ('C15', r'TTBR0|PD0'), ('C12', r'SPSRWriteByInstr|SUBS PC, LR \(Thumb\)|exception return executed'),
+         ('C03', r'LDM|STM|LDMDA|POP'), ('C02', r'LDR \(register\)|STREXD|stores of the PC|MemU'), ('C07', r'Thumb|T2|T3|T4|decode'),
+         ('C06', r'ARM ADD/SUB|STRT/STRBT|LDRSB \(register\) A1'), ('C18', r'UNPREDICTABLE encoding'), ('C13', r'instruction fetch')]
 for h, subj in subjects.items():
     if not subj.startswith('fix:'):
         continue
